@@ -229,7 +229,33 @@ PROTO_FIXED = [
     ([('alpha.ml', 'b\nc')], [('alpha.ml', '')], 0),
     ([], [('alpha.ml', 'x\n')], 2),
     ([('alpha.ml', 'x\n')], [], 2),
+    # non-ASCII sources (2-, 3-, 4-byte UTF-8): in a changed line, an unchanged line, a new file, a removed file
+    ([('alpha.ml', 'let a = 1\nlet b = 2\n')], [('alpha.ml', 'let a = 1\nlet b = "\u00e9"\n')], 3),
+    ([('alpha.ml', '(* tez \ua729 \u2014 ok *)\nlet b = 2\n')], [('alpha.ml', '(* tez \ua729 \u2014 ok *)\nlet b = 3\n')], 0),
+    ([('alpha.ml', 'x\n')], [('alpha.ml', 'x\n'), ('beta.mli', 'val f : unit (* \U0001d538 \u00e9 *)'), ('beta.ml', '\u2014\n')], 1),
+    ([('alpha.ml', '\u00e9\n\ua729'), ('beta.ml', 'gone \U0001f600\n')], [('alpha.ml', '\u00e9\n\ua729\n')], 2),
+    ([('alpha.mli', '\u00e9')], [('alpha.mli', '\u00e9')], 3),
 ]
+NONASCII = ['\u00e9', '\u00df', '\u2014', '\ua729', '\u20ac', '\U0001d538', '\U0001f600']
+
+
+def uni(rng, a, b):
+    """put non-ASCII characters into a pair of texts: a consistent substitution (so unchanged lines carry them too)
+    and/or an edit on one side only (changed lines)"""
+    k = rng.random()
+    if k < 0.6:
+        src, dst = rng.choice('abcx e'), rng.choice(NONASCII)
+        a, b = a.replace(src, dst), b.replace(src, dst)
+    if k > 0.3:
+        ch = rng.choice(NONASCII)
+        if rng.random() < 0.5 or not b:
+            b = ch + b
+        else:
+            i = rng.randrange(len(b))
+            b = b[:i] + ch + b[i:]
+        if rng.random() < 0.3:
+            a = a + rng.choice(NONASCII)
+    return a, b
 
 
 def malform(rng, patch):
@@ -277,7 +303,7 @@ def run(ctx: lib.Ctx) -> None:
     from pytezos.protocol.protocol import Protocol, files_to_proto, proto_to_files
     rng = ctx.rng
     ctx.rule = ('pairs (a, b) of texts over a 34-word line alphabet incl. lines starting with @ - + \\ space, empty lines, empty texts, '
-                'missing final newline on either side; b = edits of a / independent / equal; context 0..5 (each generated pair with 2 context sizes, 31 fixed boundary pairs with 4 (thorough: all 6)); '
+                'missing final newline on either side; b = edits of a / independent / equal; context 0..5 (each generated pair with 2 context sizes, 43 fixed boundary pairs with 2-3 incl. context 0 (thorough: all 6)); '
                 'hand-built edit scripts (adjacent and empty hunks, arbitrary tag order); malformed = mutated patch text. '
                 'non-trivial = the patch has at least one hunk and the texts differ; distinct = distinct (source, patch, direction)')
     reported = 0
@@ -312,7 +338,7 @@ def run(ctx: lib.Ctx) -> None:
         add_apply(doc['source'], doc['patch'], bool(doc.get('revert')), 'corpus')
 
     # ---- 1. difflib patches
-    npairs = ctx.n(120, 3000)
+    npairs = ctx.n(90, 3000)
     fixed = [('', ''), ('', 'a\n'), ('a\n', ''), ('a', ''), ('', 'a'), ('a', 'a\n'), ('a\n', 'a'), ('a\nb', 'a\nb\nc'), ('a\nb\nc', 'a\nb'),
              ('\n', ''), ('\n\n', '\n'), ('a\n\n', 'a\n'), ('@\n', '@@\n'), ('\\ No newline at end of file\n', '\\ No newline at end of file'),
              ('x\ny', 'x\nz\n'), ('x\ny', 'x\nz'), ('y', 'z'), ('y', 'z\n'), ('y\n', 'z'), ('p\nq\ny', 'p\nQ\nz'),
@@ -326,7 +352,7 @@ def run(ctx: lib.Ctx) -> None:
         elif len(a) > 400:
             css = [0, 2]
         else:
-            css = list(range(6)) if ctx.thorough else [0, 1, 3, rng.choice([2, 4, 5])]
+            css = list(range(6)) if ctx.thorough else [0, rng.choice([1, 2, 3]), rng.choice([3, 4, 5])] if k % 2 else [0, rng.choice([1, 2, 3, 4, 5])]
         for cs in css:
             fname = rng.choice(['f', 'x.ml', 'dir/a b.mli', ''])
             ok, patch = lib.call(make_patch, a, b, fname, cs)
@@ -352,7 +378,7 @@ def run(ctx: lib.Ctx) -> None:
 
     # ---- 2. hand-built scripts
     script_fail = []
-    nscripts = ctx.n(100, 2500)
+    nscripts = ctx.n(64, 2500)
     made = 0
     tries = 0
     while made < nscripts and tries < nscripts * 6:
@@ -395,7 +421,7 @@ def run(ctx: lib.Ctx) -> None:
 
     # ---- 3. malformed stream (A only)
     base = [m for m in apply_meta if m[4] in ('difflib', 'script') and m[1]]
-    for _ in range(ctx.n(170, 3000)):
+    for _ in range(ctx.n(130, 3000)):
         src, patch, rv, _, _ = rng.choice(base)
         bad = malform(rng, patch)
         if rng.random() < 0.2:
@@ -404,7 +430,7 @@ def run(ctx: lib.Ctx) -> None:
         ctx.case(('m', src, bad, rv), nontrivial=True, kind=f'malformed:{"reject" if got is None else "accepted"}')
 
     # ---- 4. Protocol.diff / Protocol.patch
-    for k in range(ctx.n(26, 400)):
+    for k in range(ctx.n(32, 400)):
         names = rng.sample(['alpha', 'beta', 'gamma_x', 'delta', 'eps'], rng.choice([1, 2, 3, 4]))
         yf, tf = [], []
         for nm in names:
@@ -413,6 +439,8 @@ def run(ctx: lib.Ctx) -> None:
                     a, b = gen_pair(rng)
                     if not ascii_lf_only(a, b):
                         continue
+                    if k % 3 == 1:
+                        a, b = uni(rng, a, b)
                     side = rng.random()
                     if side < 0.8:
                         yf.append((f'{nm}.{ext}', a))
@@ -427,26 +455,44 @@ def run(ctx: lib.Ctx) -> None:
         ok, d = lib.call(yours.diff, lambda: theirs_proto, cs)
         res = None
         dfiles = None
+        ok2 = False
+        r = None
         if ok:
             dfiles = list(d)
             dproto = d._proto
             ok2, r = lib.call(yours.patch, lambda: dproto)
             if ok2:
                 res = list(r)
-        want = proto_to_files(theirs_proto)
-        ctx.case(('p', tuple(yf), tuple(tf), cs), nontrivial=bool(tf), kind='protocol',
-                 sample={'yours': yf, 'theirs': tf, 'context': cs} if k == 2 else None)
-        if res != want:
-            report('patching a protocol with its diff against another does not reproduce the other',
-                   {'yours': yf, 'theirs': tf, 'context_size': cs, 'got': res, 'want': want,
-                    'repro': 'Protocol(files_to_proto(yours)).patch(lambda: Protocol(files_to_proto(yours)).diff(lambda: files_to_proto(theirs), ctx)._proto)'})
+        want = [tuple(x) for x in tf]
+        nonascii = not all(ascii_lf_only(t) for _, t in yf + tf)
+        # hex components and protocol hash of the patched protocol vs the second protocol; files <-> proto round trip
+        comp_ok = hash_ok = None
+        if ok and ok2:
+            comp_ok = r._proto.get('components') == theirs_proto.get('components')
+            okh1, h1 = lib.call(r.hash)
+            okh2, h2 = lib.call(Protocol(theirs_proto).hash)
+            hash_ok = okh1 and okh2 and h1 == h2
+        okrt, rt = lib.call(lambda: proto_to_files(files_to_proto(tf)))
+        rt_ok = okrt and [tuple(x) for x in rt] == want
+        okry, ry = lib.call(lambda: proto_to_files(files_to_proto(yf)))
+        rt_ok = rt_ok and okry and [tuple(x) for x in ry] == [tuple(x) for x in yf]
+        ctx.case(('p', tuple(yf), tuple(tf), cs), nontrivial=bool(tf), kind='protocol:nonascii' if nonascii else 'protocol',
+                 sample={'yours': yf, 'theirs': tf, 'context': cs} if k in (2, 7) else None)
+        if res != want or not comp_ok or not hash_ok or not rt_ok:
+            what = ('files_to_proto / proto_to_files do not round-trip the source texts' if not rt_ok else
+                    'patching a protocol with its diff against another does not reproduce the other')
+            report(what,
+                   {'yours': yf, 'theirs': tf, 'context_size': cs, 'got': res, 'want': want, 'components_equal': comp_ok, 'hash_equal': hash_ok,
+                    'files_proto_roundtrip': rt_ok,
+                    'repro': 'y=Protocol(files_to_proto(yours)); t=files_to_proto(theirs); r=y.patch(lambda: y.diff(lambda: t, ctx)._proto); '
+                             'list(r)==theirs, r._proto==t, r.hash()==Protocol(t).hash(), proto_to_files(files_to_proto(theirs))==theirs'})
         if dfiles is not None and all(ascii_lf_only(t) for _, t in dfiles + list(yours)):
             fl = lambda fs: clist(f'({cb(n)}, {cb(t)})' for n, t in fs)  # noqa: E731
             out = 'Reject' if res is None else f'(Ok {fl(res)})'
             allcases.append((3 * sum(len(t) for _, t in dfiles + list(yours)) + 60,
                              (f'(DProto {fl(list(yours))} {fl(dfiles)} {out})', 'proto', (yf, tf, cs, res))))
     # ---- (A): the model evaluates every collected case inside coqc
-    shard = ctx.n(220, 400)
+    shard = ctx.n(190, 400)
     ordered = balanced(allcases, shard)
     bad = ctx.coq_mismatches('cases', IMPORTS, 'dcheck', 'Bool.eqb', 'dcase', 'bool', [(lit, 'true') for lit, _, _ in ordered], shard=shard)
     ctx.extra['coq_cases'] = {k: sum(1 for _, s_, _ in ordered if s_ == k) for k in ('apply', 'script', 'proto')}
@@ -493,7 +539,9 @@ def replay(ctx, doc) -> bool:
             dp = d._proto
             ok2, r = lib.call(yours.patch, lambda: dp)
             res = list(r) if ok2 else None
-        print(f'replay: got={res!r} want={proto_to_files(tp)!r}')
-        return res != proto_to_files(tp)
+        same = ok and res is not None and r._proto.get('components') == tp.get('components') and r.hash() == Protocol(tp).hash()
+        rt = [tuple(x) for x in proto_to_files(files_to_proto(tf))] == tf
+        print(f'replay: got={res!r} want={tf!r} components+hash equal={same} files<->proto round trip={rt}')
+        return res != tf or not same or not rt
     print('replay: no failing input of the property in this file (correspondence / proof break)')
     return False
